@@ -57,31 +57,27 @@ theorem statements_follow_matchers (data : List Char) (vm fm : Option (List Char
     ∀ st ∈ r.stmts, st.filtered = applyMatch (if st.isFunc then fm else vm) st.name ∧ st.start ≤ st.stop :=
   (mainRun_final data vm fm out r hno h).2.2
 
-/-- **the pattern `build_regex_string` builds selects by whole-name match**: for tokens that are simple patterns
-(plain names, escaped punctuation, `.`, `*`/`+`/`?` on one character — no `|` inside a token) the text built by
+/-- **the pattern `build_regex_string` builds selects by whole-name match**: for tokens that are alternations
+`p₁|p₂|…` of simple patterns (plain names, escaped punctuation, `.`, `*`/`+`/`?` on one character) the text built by
 `build_regex_string` is inside the modelled `re` subset and `.match` on it selects exactly the names some token
 matches **as a whole** (whitelist mode: the names no token matches), whatever the number and order of the tokens and
-however the names share prefixes, suffixes or infixes with them.
+however the names share prefixes, suffixes or infixes with them.  (Full strength since the fix that groups a single token
+too; before it the statement failed for one token with a top-level `|`, see `ungrouped_single_token_counterexample`.) -/
+theorem patterns_select_whole_name (ts : List Token) (hp : ∀ t ∈ ts, renderToken t ≠ []) (whitelist : Bool) :
+    ∃ m, mkMatcher (ts.map renderToken) whitelist = .ok m ∧
+      ∀ name, '\n' ∉ name → applyMatch m name = (!ts.isEmpty && selects ts whitelist name) :=
+  mkMatcher_selects ts hp whitelist
 
-Guarded (`_partial`): the full statement — the same for tokens that are alternations `p₁|p₂|…` of simple patterns —
-is false of the model when there is exactly one such token, see `single_alternation_token_counterexample`. -/
-theorem patterns_select_whole_name_partial (ps : List Simple) (hp : ∀ p ∈ ps, p ≠ []) (whitelist : Bool) :
-    ∃ m, mkMatcher (ps.map renderSimple) whitelist = .ok m ∧
-      ∀ name, '\n' ∉ name →
-        applyMatch m name = (!ps.isEmpty && selects (ps.map fun p => [p]) whitelist name) :=
-  mkMatcher_selects ps hp whitelist
+example : ∀ t ∈ [[literal "CFLAGS".toList], [literal "T".toList, literal "D".toList],
+    [[(.lit 'P', .one), (.lit '_', .one), (.any, .star)]]], renderToken t ≠ [] := by decide
 
-example : ∀ p ∈ [literal "CFLAGS".toList, literal "T".toList, [(.lit 'P', .one), (.lit '_', .one), (.any, .star)]],
-    p ≠ ([] : Simple) := by decide
-
-/-- a single token with a top-level `|` is not grouped (`^A|B$`): the model (like the code) selects `AX` for the token
-`A|B`, the specification (whole-name match of the token) does not -/
-theorem single_alternation_token_counterexample :
-    (match mkMatcher [['A', '|', 'B']] false with
-      | .ok m => applyMatch m ['A', 'X']
-      | .error _ => false) = true ∧
+/-- the text the code built before the fix for the single token `A|B` (`^A|B$`, not grouped) selects `AX`; the
+specification (whole-name match of the token) does not, and neither does the grouped text built now -/
+theorem ungrouped_single_token_counterexample :
+    (parseRe ['^', 'A', '|', 'B', '$']).map (·.matches ['A', 'X']) = some true ∧
     selectsText [['A', '|', 'B']] false ['A', 'X'] = some false ∧
-    (match mkMatcher [['A', '|', 'B'], ['C']] false with
+    buildRegexString [['A', '|', 'B']] false = some ['^', '(', '?', ':', 'A', '|', 'B', ')', '$'] ∧
+    (match mkMatcher [['A', '|', 'B']] false with
       | .ok m => applyMatch m ['A', 'X']
       | .error _ => true) = false := by
   decide +kernel
@@ -104,17 +100,17 @@ theorem names_run_is_scanner_run (data : List Char) (vtoks ftoks : List (List Ch
         exact ⟨vm, fm, rfl, rfl, by rw [hm, h]⟩
 
 /-- **a statement is filtered exactly when the token list of its kind selects its name** — `main_run` with the token
-lists actually passed (simple patterns): an assignment / a function definition is removed iff some variable / function
+lists actually passed: an assignment / a function definition is removed iff some variable / function
 token matches its whole name (whitelist mode: iff none does); with no tokens of a kind nothing of that kind is removed -/
-theorem statements_selected_by_name (data : List Char) (vps fps : List Simple) (hv : ∀ p ∈ vps, p ≠ [])
-    (hf : ∀ p ∈ fps, p ≠ []) (vwl fwl : Bool) (out : List Char) (r : ScopeResult) (hno : '\x00' ∉ data)
-    (h : mainRunNames data (vps.map renderSimple) (fps.map renderSimple) vwl fwl = .ok (out, r)) :
+theorem statements_selected_by_name (data : List Char) (vts fts : List Token) (hv : ∀ t ∈ vts, renderToken t ≠ [])
+    (hf : ∀ t ∈ fts, renderToken t ≠ []) (vwl fwl : Bool) (out : List Char) (r : ScopeResult) (hno : '\x00' ∉ data)
+    (h : mainRunNames data (vts.map renderToken) (fts.map renderToken) vwl fwl = .ok (out, r)) :
     ∀ st ∈ r.stmts, st.filtered =
-      if st.isFunc then (!fps.isEmpty && selects (fps.map fun p => [p]) fwl st.name)
-      else (!vps.isEmpty && selects (vps.map fun p => [p]) vwl st.name) := by
+      if st.isFunc then (!fts.isEmpty && selects fts fwl st.name)
+      else (!vts.isEmpty && selects vts vwl st.name) := by
   obtain ⟨vm, fm, h1, h2, h3⟩ := names_run_is_scanner_run _ _ _ _ _ _ _ h
-  obtain ⟨vm', hv1, hv2⟩ := mkMatcher_selects vps hv vwl
-  obtain ⟨fm', hf1, hf2⟩ := mkMatcher_selects fps hf fwl
+  obtain ⟨vm', hv1, hv2⟩ := mkMatcher_selects vts hv vwl
+  obtain ⟨fm', hf1, hf2⟩ := mkMatcher_selects fts hf fwl
   rw [h1] at hv1; rw [h2] at hf1
   cases hv1; cases hf1
   intro st hst
@@ -130,7 +126,7 @@ example : (match mainRunNames ['A', '=', '1', '\n', 'A', 'B', '=', '2', '\n'] [[
     | .ok (out, _) => out == ['\n', 'A', 'B', '=', '2', '\n']
     | .error _ => false) = true := by decide +kernel
 
-example : [literal ['A'], literal ['C']].map renderSimple = [['A'], ['C']] := by decide
+example : [[literal ['A']], [literal ['C']]].map renderToken = [['A'], ['C']] := by decide
 
 /-- **plain names select exactly themselves**: when the tokens are plain names (no regular-expression character),
 an assignment / function is removed iff its name **is** one of the names passed (whitelist mode: iff it is not) — a name
@@ -143,22 +139,26 @@ theorem plain_names_selected_exactly (data : List Char) (vnames fnames : List (L
       if st.isFunc then (!fnames.isEmpty && (fwl != fnames.contains st.name))
       else (!vnames.isEmpty && (vwl != vnames.contains st.name)) := by
   have hmap : ∀ names : List (List Char), (∀ n ∈ names, n ≠ [] ∧ ∀ c ∈ n, isSpecial c = false) →
-      (names.map literal).map renderSimple = names ∧ (∀ p ∈ names.map literal, p ≠ []) ∧
-      ∀ wl name, selects ((names.map literal).map fun p => [p]) wl name = (wl != names.contains name) := by
+      (names.map fun n => [literal n]).map renderToken = names ∧
+      (∀ t ∈ names.map fun n => [literal n], renderToken t ≠ []) ∧
+      ∀ wl name, selects (names.map fun n => [literal n]) wl name = (wl != names.contains name) := by
     intro names hn
+    have hr : ∀ n ∈ names, renderToken [literal n] = n := by
+      intro n hmem
+      simp only [renderToken, List.map_cons, List.map_nil, joinBar]
+      exact literal_render n (hn n hmem).2
     refine ⟨?_, ?_, ?_⟩
     · rw [List.map_map]
       conv => rhs; rw [← List.map_id names]
       apply List.map_congr_left
       intro n hmem
-      exact literal_render n (hn n hmem).2
-    · intro p hp'
-      obtain ⟨n, hmem, rfl⟩ := List.mem_map.mp hp'
-      have := (hn n hmem).1
-      cases n with
-      | nil => exact absurd rfl this
-      | cons c cs => simp [literal]
+      exact hr n hmem
+    · intro t ht
+      obtain ⟨n, hmem, rfl⟩ := List.mem_map.mp ht
+      rw [hr n hmem]
+      exact (hn n hmem).1
     · intro wl name
+      clear hr
       simp only [selects, List.any_map, Function.comp_def, matchToken, List.any_cons, List.any_nil, Bool.or_false,
         literal_match]
       congr 1
